@@ -41,7 +41,8 @@ Inductive err :=
 | ErrNoValidJson             (* "No valid JSON found in text" *)
 | ErrNoJson                  (* "No JSON found" *)
 | ErrStr (e : exn)           (* str(e) *)
-| ErrAllFailed (n : nat).    (* "All n folding strategies failed..." *)
+| ErrAllFailed (n : nat)     (* "All n folding strategies failed..." *)
+| ErrUnknown.                (* "Unknown folding error" (chaperone_loop.py:201) *)
 
 Definition attempt := (strategy * bool * option err)%type.   (* FoldingAttempt without duration *)
 
@@ -84,6 +85,8 @@ Record num := mkNum {
   of_len : nat -> T;                 (* len(list) as a number *)
   nmul : T -> T -> T; nsub : T -> T -> T;
   nmax : T -> T -> T;                (* Python max(a, b): a unless b > a *)
+  nmin : T -> T -> T;                (* Python min(a, b): a unless b < a *)
+  of_dyadic : Z -> Z -> T;           (* m * 2^e: every binary64 value is one (ChaperoneLoop.confidence_decay) *)
   nobs : T -> list Z                 (* exact numerator / denominator *)
 }.
 
@@ -93,6 +96,8 @@ Definition numQ : num :=
   mkNum Q 1%Q 0%Q (9#10)%Q (17#20)%Q (1#2)%Q (3#4)%Q (2#5)%Q (1#20)%Q
         (fun n => inject_Z (Z.of_nat n)) Qmult Qminus
         (fun a b => if Qle_bool b a then a else b)
+        (fun a b => if Qle_bool a b then a else b)
+        (fun m e => (inject_Z m * Qpower 2 e)%Q)
         q_obs.
 
 Definition float_obs (f : float) : list Z :=
@@ -111,6 +116,9 @@ Definition numF : num :=
         0x1p-1%float 0x1.8p-1%float 0x1.999999999999ap-2%float 0x1.999999999999ap-5%float
         (fun n => PrimFloat.of_uint63 (Uint63.of_Z (Z.of_nat n))) PrimFloat.mul PrimFloat.sub
         (fun a b => if PrimFloat.ltb a b then b else a)
+        (fun a b => if PrimFloat.ltb b a then b else a)
+        (fun m e => let f := Z.ldexp (PrimFloat.of_uint63 (Uint63.of_Z (Z.abs m))) e in
+                    if m <? 0 then PrimFloat.opp f else f)
         float_obs.
 
 (* ---------------------------------------------------------------------- *)
@@ -495,8 +503,69 @@ Definition fold_enhanced (ctor arg : list strategy) (raw : Z) (st : stats)
       end
   end.
 
+(* ---- the healing loop built on fold_enhanced ---------------------------------
+   operon_ai/healing/chaperone_loop.py:135-234,
+   ChaperoneLoop(generator, chaperone, schema, max_retries, confidence_decay).heal(prompt).
+   The generator is the user's callback: [gen k] is the text its k-th call returns
+   (any function: the theorems quantify over it).  Every attempt is
+   chaperone.fold_enhanced(raw_output, schema) with no per-call strategies, on the
+   SAME Chaperone object (its counters advance).  A valid fold is returned with
+   its confidence lowered to min(confidence, max(0.0, 1.0 - attempt*decay)). *)
+Record rattempt := mkRA {            (* RefoldingAttempt *)
+  ra_num : nat; ra_raw : Z; ra_error : option err; ra_success : bool; ra_conf : T N }.
+Inductive houtcome := HValidFirstTry | HHealed | HDegraded.
+Record hres := mkH {                 (* HealingResult *)
+  h_outcome : houtcome; h_folded : option eres; h_attempts : list rattempt;
+  h_final : T N; h_tagged : bool }.
+
+(* max(0.0, base_confidence - (attempt_num * self.confidence_decay)) *)
+Definition cur_conf (decay : T N) (k : nat) : T N :=
+  nmax N (lit_0_0 N) (nsub N (lit_1_0 N) (nmul N (of_len N k) decay)).
+
+Definition with_conf (r : eres) (c : T N) : eres :=
+  mkE (e_valid r) (e_structure r) (e_error r) (e_attempts r) c (e_coercions r) (e_strategy r).
+
+(* for attempt_num in range(max_retries + 1): fuel = iterations left, k = attempt_num.
+   Result, counters afterwards, oracle calls of every fold_enhanced made. *)
+Fixpoint heal_loop (ctor : list strategy) (gen : nat -> Z) (decay : T N)
+                   (fuel k : nat) (st : stats) (atts : list rattempt)
+  : outcome hres * stats * list (list call) :=
+  match fuel with
+  | Datatypes.O => (Ret (mkH HDegraded None atts (lit_0_0 N) true), st, [])
+  | S fuel' =>
+      let raw := gen k in
+      match fold_enhanced ctor [] raw st with
+      | (Raises e, st', l) => (Raises e, st', [l])
+      | (Ret r, st', l) =>
+          if e_valid r then
+            let c := cur_conf decay k in
+            let r' := with_conf r (nmin N (e_conf r) c) in
+            (Ret (mkH (match k with Datatypes.O => HValidFirstTry | S _ => HHealed end) (Some r')
+                      (atts ++ [mkRA k raw None true c]) (e_conf r') false), st', [l])
+          else
+            let et := match e_error r with Some e => e | None => ErrUnknown end in
+            let '(res, st'', ls) :=
+              heal_loop ctor gen decay fuel' (S k) st' (atts ++ [mkRA k raw (Some et) false (lit_0_0 N)]) in
+            (res, st'', l :: ls)
+      end
+  end.
+
+Definition heal (ctor : list strategy) (gen : nat -> Z) (max_retries : Z) (decay : T N) (st : stats)
+  : outcome hres * stats * list (list call) :=
+  heal_loop ctor gen decay (Z.to_nat (max_retries + 1)) 0 st [].
+
 End Model.
 
+Arguments ra_num {N} _.
+Arguments ra_raw {N} _.
+Arguments ra_error {N} _.
+Arguments ra_success {N} _.
+Arguments ra_conf {N} _.
+Arguments h_outcome {N} _.
+Arguments h_folded {N} _.
+Arguments h_attempts {N} _.
+Arguments h_final {N} _.
+Arguments h_tagged {N} _.
 Arguments e_valid {N} _.
 Arguments e_structure {N} _.
 Arguments e_error {N} _.
@@ -546,14 +615,18 @@ Inductive hop :=
 | HFold (raw sch : Z) (arg : list strategy)            (* chap.fold(raw, schema, arg) *)
 | HFoldEnhanced (raw sch : Z) (arg : list strategy)    (* chap.fold_enhanced(raw, schema, arg) *)
 | HRegister (sch co : Z)                               (* chap.register_co_chaperone(schema, co) *)
-| HReset.                                              (* chap.reset_statistics() *)
+| HReset                                               (* chap.reset_statistics() *)
+| HHeal (gen : nat -> Z) (sch max_retries m e : Z).    (* ChaperoneLoop(gen, chap, schema, max_retries,
+                                                          confidence_decay = m * 2^e).heal(prompt) *)
 
 Inductive hout (N : num) :=
 | OPlain (r : outcome pres) (l : list call)
 | OEnh (r : outcome (eres N)) (l : list call)
+| OHeal (r : outcome (hres N)) (ls : list (list call))
 | ONone.
 Arguments OPlain {N} _ _.
 Arguments OEnh {N} _ _.
+Arguments OHeal {N} _ _.
 Arguments ONone {N}.
 
 Definition reg_step (reg : registry) (op : hop) : registry :=
@@ -576,6 +649,10 @@ Definition hstep (s : cstate) (op : hop) : cstate * hout N :=
       (mkCS st' (cs_reg s), OEnh r l)
   | HRegister sch co => (mkCS (cs_stats s) ((sch, co) :: cs_reg s), ONone)
   | HReset => (mkCS stats0 (cs_reg s), ONone)
+  | HHeal gen sch mr m e =>
+      let co := lookup_co (cs_reg s) sch in
+      let '(r, st', ls) := heal N (oracles_for B sch co) (config_for B co) ctor gen mr (of_dyadic N m e) (cs_stats s) in
+      (mkCS st' (cs_reg s), OHeal r ls)
   end.
 
 (* what each call of a history returns *)
@@ -690,6 +767,7 @@ Definition err_code (e : option err) : Z :=
   | Some ErrNoJson => 4
   | Some (ErrStr _) => 5
   | Some (ErrAllFailed n) => 100 + Z.of_nat n
+  | Some ErrUnknown => 6
   end.
 
 Definition coercion_obs (c : coercion) : list Z :=
@@ -739,6 +817,28 @@ Definition eres_obs {N : num} (r : outcome (eres N)) : list (list Z) :=
         attempts_obs (e_attempts x) ]
   end.
 
+Definition houtcome_code (o : houtcome) : Z :=
+  match o with HValidFirstTry => 0 | HHealed => 1 | HDegraded => 2 end.
+
+Definition rattempt_obs {N : num} (a : rattempt N) : list Z :=
+  [Z.of_nat (ra_num a); ra_raw a; err_code (ra_error a); if ra_success a then 1 else 0] ++ nobs N (ra_conf a).
+
+Definition hres_obs {N : num} (r : outcome (hres N)) : list (list Z) :=
+  match r with
+  | Raises e => [[1; exn_code e]]
+  | Ret h =>
+      [[0; houtcome_code (h_outcome h); if h_tagged h then 1 else 0] ++ nobs N (h_final h)]
+      ++ match h_folded h with Some x => eres_obs (Ret x) | None => [[-1]] end
+      ++ [flat_map rattempt_obs (h_attempts h)]
+  end.
+
+(* the oracle calls of the k-th fold_enhanced of a heal, behind a separator row *)
+Fixpoint folds_obs (k : Z) (ls : list (list call)) : list (list Z) :=
+  match ls with
+  | [] => []
+  | l :: rest => [[-3; k]] ++ flat_map call_obs l ++ folds_obs (k + 1) rest
+  end.
+
 Definition stats_obs (st : stats) : list Z :=
   [st_total st; st_successful st]
   ++ map (st_success st) default_strategies ++ map (st_attempts st) default_strategies.
@@ -750,7 +850,10 @@ Record case := mkCase {
   c_ctor : list Z;
   c_reg0 : list (list Z);        (* [schema; co] *)
   c_ops : list (list Z);         (* [0; raw; schema; arg...] fold | [1; raw; schema; arg...] fold_enhanced
-                                    | [2; schema; co] register_co_chaperone | [3] reset_statistics *)
+                                    | [2; schema; co] register_co_chaperone | [3] reset_statistics
+                                    | [4; schema; max_retries; m; e; raw0; raw1; ...] ChaperoneLoop.heal with
+                                      confidence_decay = m * 2^e and a generator whose k-th call returns raw_k
+                                      (the last one from then on) *)
   c_tab : otab }.
 
 Definition op_of (row : list Z) : hop :=
@@ -758,6 +861,7 @@ Definition op_of (row : list Z) : hop :=
   | 0 :: raw :: sch :: arg => HFold raw sch (map strategy_of arg)
   | 1 :: raw :: sch :: arg => HFoldEnhanced raw sch (map strategy_of arg)
   | 2 :: sch :: co :: _ => HRegister sch co
+  | 4 :: sch :: mr :: m :: e :: raws => HHeal (fun k => nth k raws (last raws unknown)) sch mr m e
   | _ => HReset
   end.
 Definition reg_of (rows : list (list Z)) : registry :=
@@ -771,6 +875,7 @@ Fixpoint run_obs (B : base) (ctor : list strategy) (s : cstate) (ops : list hop)
       (match o with
        | OPlain r l => [[-2; 0]; pres_obs r; stats_obs (cs_stats s')] ++ flat_map call_obs l
        | OEnh r l => [[-2; 1]] ++ eres_obs r ++ [stats_obs (cs_stats s')] ++ flat_map call_obs l
+       | OHeal r ls => [[-2; 4]] ++ hres_obs r ++ [stats_obs (cs_stats s')] ++ folds_obs 0 ls
        | ONone => match op with
                   | HRegister _ _ => [[-2; 2]]
                   | _ => [[-2; 3]; stats_obs (cs_stats s')]
